@@ -99,6 +99,17 @@ type fact struct {
 func (g *guardCtx) factsOf(cond ast.Expr, truth bool) []fact {
 	cond = unparen(cond)
 	var out []fact
+	if u, ok := cond.(*ast.UnaryExpr); ok && u.Op == token.NOT {
+		return g.factsOf(u.X, !truth)
+	}
+	// `if h.isNil(x == nil) { return }`: a helper of the library that hands one of its boolean arguments back
+	if call, ok := cond.(*ast.CallExpr); ok {
+		for k, a := range call.Args {
+			if _, isBin := unparen(a).(*ast.BinaryExpr); isBin && g.calleeReturnsParam(call, k) {
+				return g.factsOf(a, truth)
+			}
+		}
+	}
 	if b, ok := cond.(*ast.BinaryExpr); ok {
 		switch {
 		case b.Op == token.LAND && truth, b.Op == token.LOR && !truth:
@@ -339,6 +350,16 @@ func (g *guardCtx) guardOfIndex(x *ast.IndexExpr, stack []ast.Node, fd *ast.Func
 				if k, ok := p.Key.(*ast.Ident); ok && g.info.ObjectOf(k) == obj && obj != nil && g.str(p.X) == a {
 					if !g.assignsTo(p.Body, a) {
 						return "range-index"
+					}
+				}
+				// the index variable of a range over ANOTHER operand of the same length: two fixed-size arrays of equal
+				// length, or a slice made with exactly `len(<ranged operand>)` elements in this function and never re-assigned
+				if k, ok := p.Key.(*ast.Ident); ok && g.info.ObjectOf(k) == obj && obj != nil && g.str(p.X) != a && !g.assignsTo(p.Body, a) {
+					if g.sameArrayLen(x.X, p.X) {
+						return "range-index-same-length"
+					}
+					if g.madeWithLenOf(x.X, g.str(p.X), fd) {
+						return "range-index-made-with-len"
 					}
 				}
 			case *ast.FuncLit:
@@ -601,6 +622,12 @@ func (g *guardCtx) classifyMapRange(rs *ast.RangeStmt, fnBody *ast.BlockStmt) st
 					sorted = true
 				}
 			}
+			// or handed to a function of the library that sorts that parameter (the sort extracted into a helper)
+			for k, a := range call.Args {
+				if g.str(a) == s && g.calleeSortsParam(call, k) {
+					sorted = true
+				}
+			}
 			return true
 		})
 		if !sorted {
@@ -608,6 +635,194 @@ func (g *guardCtx) classifyMapRange(rs *ast.RangeStmt, fnBody *ast.BlockStmt) st
 		}
 	}
 	return "collect-then-sort"
+}
+
+// sameArrayLen: both operands are fixed-size arrays (or pointers to them) of the same constant length.
+func (g *guardCtx) sameArrayLen(a, b ast.Expr) bool {
+	arr := func(e ast.Expr) (*types.Array, bool) {
+		t := g.info.TypeOf(e)
+		if t == nil {
+			return nil, false
+		}
+		if p, ok := t.Underlying().(*types.Pointer); ok {
+			t = p.Elem()
+		}
+		x, ok := t.Underlying().(*types.Array)
+		return x, ok
+	}
+	x, ok1 := arr(a)
+	y, ok2 := arr(b)
+	return ok1 && ok2 && x.Len() == y.Len()
+}
+
+// madeWithLenOf: `a` is a local identifier whose only assignment in the function is `a := make(T, len(<other>))`
+// (also with an equal capacity argument).
+func (g *guardCtx) madeWithLenOf(a ast.Expr, other string, fd *ast.FuncDecl) bool {
+	id, ok := unparen(a).(*ast.Ident)
+	if !ok || fd == nil || fd.Body == nil {
+		return false
+	}
+	obj := g.info.ObjectOf(id)
+	if obj == nil {
+		return false
+	}
+	assignments, good := 0, false
+	ast.Inspect(fd.Body, func(n ast.Node) bool {
+		as, ok := n.(*ast.AssignStmt)
+		if !ok {
+			return true
+		}
+		for i, l := range as.Lhs {
+			lid, ok := l.(*ast.Ident)
+			if !ok || g.info.ObjectOf(lid) != obj {
+				continue
+			}
+			assignments++
+			if len(as.Lhs) != len(as.Rhs) {
+				continue
+			}
+			call, ok := unparen(as.Rhs[i]).(*ast.CallExpr)
+			if !ok || len(call.Args) < 2 {
+				continue
+			}
+			if f, ok := call.Fun.(*ast.Ident); ok && f.Name == "make" {
+				if x, ok := g.lenOf(call.Args[1]); ok && x == other {
+					good = true
+				}
+			}
+		}
+		return true
+	})
+	return good && assignments == 1
+}
+
+// calleeReturnsParam: the call's target is a function of the library every return statement of which returns its
+// k-th parameter (a helper that records something and hands its boolean argument back).
+func (g *guardCtx) calleeReturnsParam(call *ast.CallExpr, k int) bool {
+	var id *ast.Ident
+	switch f := unparen(call.Fun).(type) {
+	case *ast.Ident:
+		id = f
+	case *ast.SelectorExpr:
+		id = f.Sel
+	}
+	if id == nil {
+		return false
+	}
+	obj, ok := g.info.ObjectOf(id).(*types.Func)
+	if !ok {
+		return false
+	}
+	for _, p := range g.c.pkgs {
+		for _, file := range p.Syntax {
+			for _, d := range file.Decls {
+				fd, ok := d.(*ast.FuncDecl)
+				if !ok || fd.Body == nil || p.TypesInfo.Defs[fd.Name] != obj {
+					continue
+				}
+				var names []string
+				for _, fld := range fd.Type.Params.List {
+					if len(fld.Names) == 0 {
+						names = append(names, "_")
+					}
+					for _, n := range fld.Names {
+						names = append(names, n.Name)
+					}
+				}
+				if k >= len(names) {
+					return false
+				}
+				returns, all := 0, true
+				ast.Inspect(fd.Body, func(n ast.Node) bool {
+					if _, ok := n.(*ast.FuncLit); ok {
+						return false
+					}
+					if r, ok := n.(*ast.ReturnStmt); ok {
+						returns++
+						if len(r.Results) != 1 {
+							all = false
+						} else if a, ok := unparen(r.Results[0]).(*ast.Ident); !ok || a.Name != names[k] {
+							all = false
+						}
+					}
+					return true
+				})
+				// the parameter must not be re-assigned in the body
+				reassigned := false
+				ast.Inspect(fd.Body, func(n ast.Node) bool {
+					if as, ok := n.(*ast.AssignStmt); ok {
+						for _, l := range as.Lhs {
+							if a, ok := l.(*ast.Ident); ok && a.Name == names[k] {
+								reassigned = true
+							}
+						}
+					}
+					return true
+				})
+				return returns > 0 && all && !reassigned
+			}
+		}
+	}
+	return false
+}
+
+// calleeSortsParam: the call's target is a function declared in the library whose body passes its k-th parameter as the
+// first argument of a sort.* / slices.* call (one level deep).
+func (g *guardCtx) calleeSortsParam(call *ast.CallExpr, k int) bool {
+	var id *ast.Ident
+	switch f := unparen(call.Fun).(type) {
+	case *ast.Ident:
+		id = f
+	case *ast.SelectorExpr:
+		id = f.Sel
+	}
+	if id == nil {
+		return false
+	}
+	obj, ok := g.info.ObjectOf(id).(*types.Func)
+	if !ok {
+		return false
+	}
+	for _, p := range g.c.pkgs {
+		for _, file := range p.Syntax {
+			for _, d := range file.Decls {
+				fd, ok := d.(*ast.FuncDecl)
+				if !ok || fd.Body == nil || p.TypesInfo.Defs[fd.Name] != obj {
+					continue
+				}
+				// name of the k-th parameter
+				var names []string
+				for _, fld := range fd.Type.Params.List {
+					if len(fld.Names) == 0 {
+						names = append(names, "_")
+					}
+					for _, n := range fld.Names {
+						names = append(names, n.Name)
+					}
+				}
+				if k >= len(names) {
+					return false
+				}
+				found := false
+				ast.Inspect(fd.Body, func(n ast.Node) bool {
+					c2, ok := n.(*ast.CallExpr)
+					if !ok || len(c2.Args) < 1 {
+						return true
+					}
+					if sel, ok := c2.Fun.(*ast.SelectorExpr); ok {
+						if pk, ok := sel.X.(*ast.Ident); ok && (pk.Name == "sort" || pk.Name == "slices") {
+							if a, ok := unparen(c2.Args[0]).(*ast.Ident); ok && a.Name == names[k] {
+								found = true
+							}
+						}
+					}
+					return true
+				})
+				return found
+			}
+		}
+	}
+	return false
 }
 
 // regexGroups: `m` was assigned `re.FindStringSubmatch(..)` in this function, `re` being a package-level
